@@ -150,6 +150,9 @@ def check(run: Run) -> None:
     vc = tt.methods.get("visit_Call")
     if vc is None:
         raise AnalysisError("anchor vanished: type_transformer.visit_Call")
+    from ..lib import view as _view_vc
+
+    vc = _view_vc(m, vc, keep=("process_method_call", "process_function_call", "process_parameterized_method_call", "process_method_callbacks"))
     fvc = ctx.analysis(vc)
     from ..lib import call_events
 
